@@ -254,7 +254,10 @@ func (e *FnEnc) validFact(t string, ty types.Type, depth int) string {
 			}
 		}
 		return "true"
-	case *types.Pointer, *types.Map, *types.Chan, *types.Signature, *types.Interface:
+	case *types.Map:
+		// maps of different Go types are different objects
+		return and(sx("<=", t, e.alloc()), implies(not(sx("=", t, "0")), sx("=", e.W.UF("mtype", []string{"Int"}, "Int", t), fmt.Sprint(e.W.TypeID(u)))))
+	case *types.Pointer, *types.Chan, *types.Signature, *types.Interface:
 		return sx("<=", t, e.alloc())
 	case *types.Slice:
 		return and(sx("<=", sx("sref", t), e.alloc()), sx(">=", sx("sref", t), "0"), sx(">=", sx("slen", t), "0"),
